@@ -7,6 +7,7 @@ import hashlib
 import io
 import json
 import os
+import pathlib
 import shutil
 
 from . import ser_common as sc
@@ -58,6 +59,8 @@ def _set_order_sensitive(v):
 def tree_hash(path):
     if not os.path.lexists(path):
         return None
+    if os.path.islink(path):
+        return "l:" + os.readlink(path)      # the link itself; what it points at is hashed as a sibling
     if os.path.isfile(path):
         return "f:" + hashlib.sha1(open(path, "rb").read()).hexdigest()
     h = hashlib.sha1()
@@ -71,7 +74,27 @@ def tree_hash(path):
     return "d:" + h.hexdigest()
 
 
-def setup_sandbox(base, store, pre, old_obj):
+# pre-existing targets.  `FOREIGN` are paths that are not objects written by save(): ordinary and
+# degenerate files / directories (a zero-byte file, an empty directory, a directory that holds
+# only zero-length placeholder files — all of them "hold no data" but EXIST) and symbolic links
+# (to a sibling file, to a sibling directory, to nothing).
+FOREIGN = ("file", "dir", "emptyfile", "emptydir", "placeholderdir", "linkfile", "linkdir", "dangling")
+PRE_CONTENT = {"absent": None, "file": ["foreign", 1], "dir": ["foreign", 2], "earlier": ["complete", 3],
+               "emptyfile": ["foreign", 4], "emptydir": ["foreign", 5], "placeholderdir": ["foreign", 6],
+               "linkfile": ["foreign", 10], "linkdir": ["foreign", 11], "dangling": ["foreign", 12]}
+SIBLINGS = ("sib.txt", "sibdir", "linked.txt", "linkeddir")     # every other name next to the target is a leftover
+
+
+def sibling_hashes(base, more=()):
+    return tuple(tree_hash(os.path.join(base, n)) for n in SIBLINGS) + tuple(tree_hash(m) for m in more)
+
+
+def _copy(src, dst):
+    (shutil.copytree if os.path.isdir(src) else shutil.copy2)(src, dst)
+
+
+def setup_sandbox(base, store, pre, old_obj, template=None):
+    """`template`: a path that already holds `old_obj.save(..., store=store)` (copied instead of saved again)"""
     shutil.rmtree(base, ignore_errors=True)
     os.makedirs(os.path.join(base, "sibdir", "inner"))
     open(os.path.join(base, "sib.txt"), "w").write("sibling\n")
@@ -86,9 +109,25 @@ def setup_sandbox(base, store, pre, old_obj):
         open(target, "w").close()
     elif pre == "emptydir":
         os.makedirs(target)
+    elif pre == "placeholderdir":   # a directory reserved with zero-length placeholder files: 0 bytes stored, but it exists
+        os.makedirs(os.path.join(target, "pkg"))
+        open(os.path.join(target, ".gitkeep"), "w").close()
+        open(os.path.join(target, "pkg", "__init__.py"), "w").close()
+    elif pre == "linkfile":       # the target is a symbolic link; what it points at is ANOTHER path
+        open(os.path.join(base, "linked.txt"), "w").write("linked file\n")
+        os.symlink("linked.txt", target)
+    elif pre == "linkdir":
+        os.makedirs(os.path.join(base, "linkeddir", "deep"))
+        open(os.path.join(base, "linkeddir", "deep", "keep.bin"), "wb").write(b"\x07" * 9)
+        os.symlink("linkeddir", target)
+    elif pre == "dangling":
+        os.symlink("nowhere-to-be-found", target)
     elif pre == "earlier":
-        with contextlib.redirect_stdout(io.StringIO()):
-            old_obj.save(target, store=store)
+        if template is not None and os.path.lexists(template):
+            _copy(template, target)
+        else:
+            with contextlib.redirect_stdout(io.StringIO()):
+                old_obj.save(target, store=store)
     return target
 
 
@@ -97,6 +136,10 @@ def observe_target(target, spec_new, spec_old, pre_hash, post_hash=None):
     if not os.path.lexists(target):
         return "absent", None
     h = post_hash if post_hash is not None else tree_hash(target)
+    if spec_old is None and pre_hash is not None and h == pre_hash:
+        # a foreign path that is bit for bit (and link for link) what it was: not loaded — load() of a
+        # foreign directory is create-or-open and would write zarr metadata into it (or through a link)
+        return "unchanged", None
     try:
         with contextlib.redirect_stdout(io.StringIO()):
             o = serialize.load(target)
@@ -120,9 +163,13 @@ def model_class(content, new_id, pre):
     return "partial-loadable"
 
 
-def run_config(ctx, drv, recipe, old_recipe, store, mode, pre, idx, call="exact", stem="from-idx"):
+def run_config(ctx, drv, recipe, old_recipe, store, mode, pre, idx, call="exact", stem="from-idx", faults="all"):
     """call: how the target is named in the save() call — "exact" (full path), "noext" (zip store,
-    path without the .zip extension that save() appends), "auto" (store inferred from the path)"""
+    path without the .zip extension that save() appends), "auto" (store inferred from the path), "pathlib" (a
+    pathlib.Path), "relative" (a relative spelling of the same path).
+    faults: "all" = every primitive call of the save is a fault position; "tail" = the fault-free run, the last
+    four positions (end of staging + install: the only ones where the KIND of the pre-existing target matters)
+    and one earlier position"""
     scratch = os.path.join(os.environ.get("QVERIF_SCRATCH", "/tmp"), "c08")
     base = os.path.join(scratch, f"s{idx}")
     builder = sc.Builder(None)
@@ -130,9 +177,9 @@ def run_config(ctx, drv, recipe, old_recipe, store, mode, pre, idx, call="exact"
     old_obj = builder.build(old_recipe)
     spec_new, spec_old = sc.observe(obj), (sc.observe(old_obj) if pre == "earlier" else None)
     zip_store = store == "zip"
-    case0 = {"recipe": recipe, "old_recipe": old_recipe, "store": store, "mode": mode, "pre": pre, "call": call, "idx": idx}
-    pre_content = {"absent": None, "file": ["foreign", 1], "dir": ["foreign", 2], "earlier": ["complete", 3],
-                   "emptyfile": ["foreign", 4], "emptydir": ["foreign", 5]}[pre]
+    case0 = {"recipe": recipe, "old_recipe": old_recipe, "store": store, "mode": mode, "pre": pre, "call": call, "idx": idx,
+             "faults": faults}
+    pre_content = PRE_CONTENT[pre]
     NEW = 7
 
     stem_sibling = None
@@ -145,16 +192,29 @@ def run_config(ctx, drv, recipe, old_recipe, store, mode, pre, idx, call="exact"
             stem_sibling = stem
     case0["stem"] = stem_sibling
 
+    # the earlier save / the same-stem directory are written once and copied into every fresh sandbox
+    tpl, tpl_stem = base + "-tpl", base + "-tplstem"
+    for t in (tpl, tpl_stem):
+        if os.path.lexists(t):
+            (shutil.rmtree if os.path.isdir(t) else os.remove)(t)
+    with contextlib.redirect_stdout(io.StringIO()):
+        if pre == "earlier":
+            old_obj.save(tpl + (".zip" if zip_store else ""), store=store)
+            if zip_store:
+                os.replace(tpl + ".zip", tpl)
+        if stem_sibling == "dir":
+            old_obj.save(tpl_stem, store="dir")
+
     def one(fault):
-        target = setup_sandbox(base, store, pre, old_obj)
+        target = setup_sandbox(base, store, pre, old_obj, template=tpl)
         stem = target[: -len(".zip")] if zip_store else None
         if stem_sibling == "dir":
-            with contextlib.redirect_stdout(io.StringIO()):
-                old_obj.save(stem, store="dir")
+            _copy(tpl_stem, stem)
         elif stem_sibling == "file":
             open(stem, "w").write("same stem, other path\n")
+        more = (stem,) if stem_sibling else ()
         pre_hash = tree_hash(target)
-        sib_hash = (tree_hash(os.path.join(base, "sib.txt")), tree_hash(os.path.join(base, "sibdir")), tree_hash(stem) if stem_sibling else None)
+        sib_hash = sibling_hashes(base, more)
         exc_cls = exc_for(fault, idx)
         rec = Recorder(target, fault, exc_cls)
         raised = None
@@ -166,6 +226,11 @@ def run_config(ctx, drv, recipe, old_recipe, store, mode, pre, idx, call="exact"
                         obj.save(target[: -len(".zip")], mode=mode, store="zip")
                     elif call == "auto":
                         obj.save(target, mode=mode)
+                    elif call == "pathlib":
+                        obj.save(pathlib.Path(target), mode=mode, store=store)
+                    elif call == "relative":
+                        # a relative spelling of the same target (resolved against the current directory)
+                        obj.save(os.path.relpath(target), mode=mode, store=store)
                     else:
                         obj.save(target, mode=mode, store=store)
             except EXC_CLASSES:
@@ -175,20 +240,28 @@ def run_config(ctx, drv, recipe, old_recipe, store, mode, pre, idx, call="exact"
             finally:
                 rec.stop()
         listing = sorted(os.listdir(base))
-        post_hash = tree_hash(target)   # before load(): zarr.group() creates metadata in a foreign directory it is pointed at
+        # hashes BEFORE load(): zarr.group() creates metadata in a foreign directory it is pointed at
+        post_hash = tree_hash(target)
+        sib_ok = sib_hash == sibling_hashes(base, more)
         state, detail = observe_target(target, spec_new, spec_old, pre_hash, post_hash)
-        sib_ok = sib_hash == (tree_hash(os.path.join(base, "sib.txt")), tree_hash(os.path.join(base, "sibdir")),
-                              tree_hash(stem) if stem_sibling else None)
-        extra = [p for p in listing if p not in ("sib.txt", "sibdir", os.path.basename(target))
+        extra = [p for p in listing if p not in SIBLINGS + (os.path.basename(target),)
                  and not (stem_sibling and p == os.path.basename(stem))]
+        if rec.notes:
+            for nt in rec.notes:
+                ctx.extra.setdefault("hook_notes", [])
+                if nt not in ctx.extra["hook_notes"]:
+                    ctx.extra["hook_notes"].append(nt)
         return rec.trace, raised, state, detail, sib_ok, extra, (pre_hash, post_hash)
 
     trace, raised, state, detail, sib_ok, extra, hashes = one(None)
     steps = to_steps(trace, zip_store)
     n = len(trace)
     fs0 = [["sib", ["foreign", 9]]] + ([["T", pre_content]] if pre_content else [])
-    faults = [None] + list(range(n))
-    for k in faults:
+    if faults == "tail":
+        fault_list = [None] + sorted(set(range(max(0, n - 4), n)) | ({idx % n} if n else set()))
+    else:
+        fault_list = [None] + list(range(n))
+    for k in fault_list:
         ctx.count()
         if k is None:
             tr_k, raised_k, state_k, detail_k, sib_k, extra_k, hashes_k = trace, raised, state, detail, sib_ok, extra, hashes
@@ -269,6 +342,9 @@ def run_config(ctx, drv, recipe, old_recipe, store, mode, pre, idx, call="exact"
     ctx.dist[f"call:{call}"] += 1
     ctx.sample({"recipe": recipe, "store": store, "mode": mode, "pre": pre, "trace": trace[:40], "fault_positions": n}, limit=2)
     shutil.rmtree(base, ignore_errors=True)
+    for t in (tpl, tpl_stem):
+        if os.path.lexists(t):
+            (shutil.rmtree if os.path.isdir(t) else os.remove)(t)
 
 
 class Unpicklable:
@@ -494,19 +570,25 @@ def run(ctx):
             g = sc.Gen(rng, {"rng_in_container": True, "fallback_in_container": True})
             recipe = g.root(rng.weighted([(1, 3), (2, 3)]))
             old_recipe = ["obj", "SB", [["old", ["scalar", sc.S(rng.randint(0, 99))]], ["arr", sc.gen_ndarray(rng)]]]
-            for store in ("zip", "dir"):
+            for si, store in enumerate(("zip", "dir")):
                 # call styles and foreign pre-states are enumerated in a fixed rotation (not drawn), so that every
                 # (mode, pre-state, call style) class is reached whatever the seed
-                styles = ["exact", "noext", "auto"] if store == "zip" else ["exact", "auto"]
-                foreign = ["file", "dir", "emptyfile", "emptydir"][i % 4]
+                styles = ["exact", "noext", "auto", "pathlib", "relative"] if store == "zip" else ["exact", "auto", "pathlib", "relative"]
+                foreign = FOREIGN[(i + 4 * si) % len(FOREIGN)]
                 for ci, (mode, pre) in enumerate((("o", "absent"), ("o", "earlier"), ("o", foreign), ("w", "absent"))):
                     call = styles[(i + ci) % len(styles)]
                     run_config(ctx, drv, recipe, old_recipe, store, mode, pre, idx, call,
                                stem=(["dir", "file", None][(i + ci) % 3] if call == "noext" else None))
                     idx += 1
+                # the KIND of a pre-existing target only matters from the end of staging on (_install): three more
+                # kinds per graph and store with the fault positions of that phase
+                for j in range(1, 4):
+                    pre = FOREIGN[(i + 4 * si + 2 * j + 1) % len(FOREIGN)]
+                    run_config(ctx, drv, recipe, old_recipe, store, "o", pre, idx, styles[(i + j) % len(styles)], stem=None, faults="tail")
+                    idx += 1
                 # write-once onto an existing target is refused before any primitive: the whole grid
                 # pre-state x call style is cheap and is run for every graph
-                for pre in ("file", "dir", "earlier", "emptyfile", "emptydir"):
+                for pre in ("earlier",) + FOREIGN:
                     for call in styles:
                         run_config(ctx, drv, recipe, old_recipe, store, "w", pre, idx, call,
                                    stem=("dir" if call == "noext" and pre in ("file", "earlier") else None))
@@ -532,7 +614,8 @@ def replay(ctx, rep):
             run_natural_failure(ctx, drv, case["recipe"], case["store"], case["pre"], case.get("idx", case["unpicklable_at"]), case.get("bad_kind"))
         else:
             run_config(ctx, drv, case["recipe"], case.get("old_recipe", ["obj", "SB", []]), case["store"], case["mode"], case["pre"],
-                       case.get("idx", 0), case.get("call", "exact"), case.get("stem", "from-idx") if "stem" in case else "from-idx")
+                       case.get("idx", 0), case.get("call", "exact"), case.get("stem", "from-idx") if "stem" in case else "from-idx",
+                       faults=case.get("faults", "all"))
     finally:
         drv.close()
     return True
